@@ -7,6 +7,7 @@ import (
 	"time"
 
 	"github.com/zitadel/saml/pkg/provider"
+	"github.com/zitadel/saml/pkg/provider/key"
 
 	"verif/harness/internal/devx"
 	"verif/harness/internal/ev"
@@ -163,6 +164,17 @@ func c04CheckResponse(rep *world.Reply, m *obs.Msg, cert interface{ Equal(any) b
 	}
 }
 
+// histories on one provider: an earlier signed reply, optionally a key rotation in storage, optionally a failing key lookup
+var c04KeyHistories = func() []string {
+	out := []string{"rotated", "other-session-first"}
+	for _, h := range []string{"rotated", "other-session-first"} {
+		for _, k := range []string{world.FaultError, world.FaultCtxDeadline, world.FaultNilRecord, world.FaultNoKey, world.FaultNoCert, world.FaultEmptyCert} {
+			out = append(out, h+"+"+k)
+		}
+	}
+	return out
+}()
+
 func c04Judge(c c04Case) c04Verdict {
 	v := c04Verdict{Detail: map[string]any{}}
 	bad := func(s string) { v.Clauses = append(v.Clauses, s) }
@@ -195,6 +207,21 @@ func c04Judge(c c04Case) c04Verdict {
 		}
 		if c.Flow == "foreign-private-key" {
 			w.Store.FaultAt("GetResponseSigningKey", 1, world.FaultForeignKey)
+		}
+		if strings.HasPrefix(c.Flow, "rotated") || strings.HasPrefix(c.Flow, "other-session-first") {
+			// history on ONE provider: another session is called back first (signed with the key in force then); "rotated": the
+			// response signing key is then replaced in storage; "+<fault>": the key lookup of the judged callback fails that way.
+			// Whatever is emitted as Success afterwards must verify under the certificate published NOW.
+			w.Store.AddUser(&world.User{ID: "u-first", Username: "first-user", Email: "first@example.com"})
+			r := w.Store.Inject(world.AuthReq{AppID: "app-a", ACS: "https://sp-a.example/acs/first", Binding: t.Binding, RequestID: "_first-req", RelayState: "first-relay"})
+			w.Store.Complete(r.ID, "u-first")
+			callbackReq(w, t.Host, r.ID)
+			if strings.HasPrefix(c.Flow, "rotated") {
+				w.Store.RespKey = &key.CertificateAndKey{Certificate: world.SPB.DER, Key: world.SPB.RSA}
+			}
+			if i := strings.Index(c.Flow, "+"); i >= 0 {
+				w.Store.FaultNext("GetResponseSigningKey", 1, c.Flow[i+1:])
+			}
 		}
 		rep, m := cbRun(w, t)
 		v.Class = "callback:" + m.Kind
@@ -240,6 +267,18 @@ func c04Judge(c c04Case) c04Verdict {
 			w, req, t = aqBuild(ap2)
 			w.Store.AddUser(u)
 			_ = t
+		}
+		if strings.HasPrefix(c.Flow, "rotated") || strings.HasPrefix(c.Flow, "other-session-first") {
+			// an earlier query is answered; (the key is replaced;) the key lookup of the judged query's signing step (its second
+			// key lookup: the first one serves the IdP metadata) fails
+			_, first, _ := aqBuild(aqP{Subject: "bob"})
+			w.Do(first)
+			if strings.HasPrefix(c.Flow, "rotated") {
+				w.Store.RespKey = &key.CertificateAndKey{Certificate: world.SPB.DER, Key: world.SPB.RSA}
+			}
+			if i := strings.Index(c.Flow, "+"); i >= 0 {
+				w.Store.FaultNext("GetResponseSigningKey", 2, c.Flow[i+1:])
+			}
 		}
 		rep := w.Do(req)
 		m := obs.Decode(rep)
@@ -389,6 +428,9 @@ func runC04(ctx Ctx) int {
 			}
 			cases = append(cases, c04Case{Kind: "callback", Binding: b, SigAlg: a, Flow: "mismatched-key"})
 			cases = append(cases, c04Case{Kind: "callback", Binding: b, SigAlg: a, Flow: "foreign-private-key"})
+			for _, fl := range c04KeyHistories {
+				cases = append(cases, c04Case{Kind: "callback", Binding: b, SigAlg: a, Flow: fl})
+			}
 			for f := range c04Fields {
 				for s := 1; s < len(sXML); s++ {
 					cases = append(cases, c04Case{Kind: "callback", Binding: b, SigAlg: a, Fields: []int{f}, Syms: []int{s}})
@@ -415,6 +457,9 @@ func runC04(ctx Ctx) int {
 		for s := 0; s < len(sXML); s++ {
 			cases = append(cases, c04Case{Kind: "attrquery", Fields: []int{f}, Syms: []int{s}})
 		}
+	}
+	for _, fl := range c04KeyHistories {
+		cases = append(cases, c04Case{Kind: "attrquery", Flow: fl})
 	}
 	for _, ms := range []string{"", world.RSASHA256, world.RSASHA1} {
 		cases = append(cases, c04Case{Kind: "metadata", MetaSig: ms})
